@@ -377,6 +377,16 @@ func (c *Canary) handleTCP(eh *ethernet.Frame, iph *ipv4.Header, data []byte) er
 			c.send(state, []byte{}, tcp.SYN|tcp.ACK)
 			state.SendNext++
 			state.State = SocketSynReceived
+
+			// the connection attempt counts as a knock for the portscan detection,
+			// the check further down is never reached for a SYN
+			c.knockChan <- KnockTCPPort{
+				SourceHardwareAddr:      eh.Source,
+				DestinationHardwareAddr: eh.Destination,
+				SourceIP:                iph.Src,
+				DestinationIP:           iph.Dst,
+				DestinationPort:         hdr.Destination,
+			}
 			return nil
 		}
 	}
